@@ -195,6 +195,15 @@ func (p *sparser) isID(s string) bool {
 	t := p.peek()
 	return t.kind == "id" && t.text == s
 }
+
+// isQuant: "forall"/"exists" starts a quantifier only when a binder name follows; otherwise it is an ordinary
+// identifier (Go code has local variables called exists)
+func (p *sparser) isQuant() bool {
+	if !(p.isID("forall") || p.isID("exists")) {
+		return false
+	}
+	return p.p+1 < len(p.toks) && p.toks[p.p+1].kind == "id"
+}
 func (p *sparser) expectOp(s string) {
 	if !p.isOp(s) {
 		panic(fmt.Sprintf("spec syntax: expected %q at %d near %q in %q", s, p.peek().pos, p.peek().text, p.src))
@@ -278,7 +287,7 @@ func (p *sparser) parseType() *SType {
 }
 
 func (p *sparser) expr() *SExpr {
-	if p.isID("forall") || p.isID("exists") {
+	if p.isQuant() {
 		q := p.next()
 		var bs []Binder
 		for {
@@ -328,7 +337,7 @@ func (p *sparser) implies() *SExpr {
 	if p.isOp("==>") {
 		t := p.next()
 		var r *SExpr
-		if p.isID("forall") || p.isID("exists") {
+		if p.isQuant() {
 			r = p.expr()
 		} else {
 			r = p.implies()
@@ -355,7 +364,7 @@ func (p *sparser) or() *SExpr {
 	for p.isOp("||") {
 		t := p.next()
 		var r *SExpr
-		if p.isID("forall") || p.isID("exists") {
+		if p.isQuant() {
 			r = p.expr()
 		} else {
 			r = p.and()
@@ -370,7 +379,7 @@ func (p *sparser) and() *SExpr {
 	for p.isOp("&&") {
 		t := p.next()
 		var r *SExpr
-		if p.isID("forall") || p.isID("exists") {
+		if p.isQuant() {
 			r = p.expr()
 		} else {
 			r = p.cmp()
